@@ -235,7 +235,7 @@ fn history_level(args: &Args, rep: &mut Report) -> serde_json::Value {
     let mut runs = vec![];
     let mut quorums_seen = 0usize;
     for (k, (weights, faulty, name)) in pl.iter().enumerate() {
-        let cfg = super::l2::L2Cfg { max_view, faulty: *faulty, weights: weights.clone(), max_states: args.tier.pick(300_000, 20_000_000), deadline: Instant::now() + Duration::from_secs(total / pl.len() as u64), seed: args.seed, crashes: false, ignore: L2_IGNORE };
+        let cfg = super::l2::L2Cfg { max_view, faulty: *faulty, weights: weights.clone(), max_states: args.tier.pick(300_000, 20_000_000), deadline: Instant::now() + Duration::from_secs(total / pl.len() as u64), seed: args.seed, crashes: false, forged: true, ignore: L2_IGNORE };
         let (_sys, _t, res) = super::l2::explore(&cfg, 0);
         for (key, wh, rpl) in &res.violations {
             rep.violations.push(Violation { key: format!("{key}@{k}"), what: format!("{wh}\n  instance: K4 weights {weights:?}, {name}"), replay: rpl.clone() });
@@ -259,7 +259,7 @@ fn history_replay(args: &Args, rp: &serde_json::Value) -> Report {
     let path: Vec<String> = rp["replay"]["path"].as_array().map(|a| a.iter().filter_map(|x| x.as_str().map(|s| s.to_string())).collect()).unwrap_or_default();
     let k: usize = rp["key"].as_str().and_then(|s| s.rsplit('@').next()).and_then(|s| s.parse().ok()).unwrap_or(0);
     let (weights, faulty, _) = &pl[k.min(pl.len() - 1)];
-    let cfg = super::l2::L2Cfg { max_view: args.tier.pick(2, 3), faulty: *faulty, weights: weights.clone(), max_states: 0, deadline: Instant::now() + Duration::from_secs(600), seed: args.seed, crashes: false, ignore: L2_IGNORE };
+    let cfg = super::l2::L2Cfg { max_view: args.tier.pick(2, 3), faulty: *faulty, weights: weights.clone(), max_states: 0, deadline: Instant::now() + Duration::from_secs(600), seed: args.seed, crashes: false, forged: true, ignore: L2_IGNORE };
     match super::l2::replay(&cfg, &path) {
         Ok(vs) => {
             for (key, wh) in vs.into_iter().filter(|(k, _)| !L2_IGNORE.contains(&k.as_str())) {
